@@ -244,6 +244,10 @@ func judge(c Case, cfg cors.Config, app *fiber.App, ranp *bool, nth int) vk.Verd
 			hasVaryOrigin = true
 		}
 	}
+	if acao != "" && acao != "*" && !hasVaryOrigin {
+		// (also when every origin is allowed: a response that names the request's own origin is a function of it)
+		return vk.Failf("%s: Access-Control-Allow-Origin names the request's origin %q but Vary is %q", ctx, acao, vary)
+	}
 	if !all && !hasVaryOrigin {
 		return vk.Failf("%s: the response depends on the Origin but Vary is %q", ctx, vary)
 	}
@@ -315,7 +319,7 @@ func genCase(t *rapid.T) Case {
 		e := Entry{Scheme: rapid.SampledFrom([]string{"http", "https"}).Draw(t, "s"), Host: rapid.SampledFrom(domains).Draw(t, "h"),
 			Port: rapid.SampledFrom([]string{"", "", "", "8080", "443", "80"}).Draw(t, "p"), Wild: rapid.Bool().Draw(t, "w"),
 			Pad: rapid.SampledFrom([]string{"", "", "", "sp", "slash"}).Draw(t, "pad")}
-		if rapid.IntRange(0, 11).Draw(t, "star") == 0 {
+		if rapid.IntRange(0, 7).Draw(t, "star") == 0 {
 			e = Entry{Star: true}
 		}
 		if rapid.IntRange(0, 11).Draw(t, "blank") == 0 {
